@@ -33,6 +33,7 @@ type Options struct {
 	MaxTimeout     int64
 	TaxNum, TaxDen int64 // service fee tax as a rational
 	Definitions    []servicetypes.ServiceDefinition
+	Bindings       []servicetypes.ServiceBinding // genesis bindings (module services)
 }
 
 // MutateGenesis shrinks the service parameters (deposits of a few units, short
@@ -48,6 +49,7 @@ func MutateGenesis(c *chain.Chain, gs simapp.GenesisState, o Options) {
 	sg.Params.SlashFraction = sdkmath.LegacyZeroDec()
 	sg.Params.BaseDenom = Denom
 	sg.Definitions = append(sg.Definitions, o.Definitions...)
+	sg.Bindings = append(sg.Bindings, o.Bindings...)
 	gs[servicetypes.ModuleName] = cdc.MustMarshalJSON(&sg)
 }
 
